@@ -6,12 +6,14 @@
       xe_frame  : items outside the selected subtrees are unchanged;
       xq_output : xq prints the serialisations of the selected nodes, in order, one per line;
       cli_total : neither tool crashes.
-    Proved here: xe_effect for every selection of ELEMENTS (any number, any order, nested or
-    not) -- [C17_xe_effect_elements_partial]; the frame property of the specification for
-    every selection -- [C17_xe_frame]; xq_output.  Missing: xe_effect for attribute and
-    document targets (decided by the correspondence and the search only), and cli_total,
-    which is about process behaviour the model cannot exhibit (observed on the real binaries
-    by the check: exit status, panic message on stderr). *)
+    Proved here, for all documents, selections and replacements: xe_effect for every selection
+    of elements and attributes, any number, any order, nested or not
+    ([C17_xe_effect_elements_attributes]) and for the document node as the selected node
+    ([C17_xe_effect_document]); the frame property of the specification for every selection
+    ([C17_xe_frame]); xq_output.  Partial: a node-set that contains the document node TOGETHER
+    with other nodes is decided by the correspondence and the search only; cli_total is about
+    process behaviour the model cannot exhibit (exit status, panic message on stderr: observed
+    on the real binaries by the check). *)
 From Coq Require Import List NArith Bool Arith.
 From XmlRs Require Import Base.CPred Spec.XeSpec Model.Cli Proofs.XeProofs.
 Import ListNotations.
@@ -23,6 +25,19 @@ Theorem C17_xe_effect_elements_partial :
   exists d', xe_model d (map (fun i => (i, KElem)) ids) frag = Done d' /\ replace_spec ids frag d = Some d'.
 Proof. exact xe_effect_elements. Qed.
 
+Theorem C17_xe_effect_elements_attributes :
+  forall (d : xdoc) (sel : list (nat * kind)) (frag : list fnode) (d' : xdoc),
+  no_doc_other sel -> ~ In 0%nat (map fst sel) -> did d = 0%nat ->
+  Forall (kinds_ok (rev (elems_of sel)) (rev (attrs_of sel))) (dchildren d) ->
+  existsb is_elem (dchildren d) = true ->
+  xe_model d sel frag = Done d' -> replace_spec (map fst sel) frag d = Some d'.
+Proof. exact xe_effect_mixed. Qed.
+
+Theorem C17_xe_effect_document :
+  forall (d : xdoc) (frag : list fnode) (d' : xdoc),
+  did d = 0%nat -> xe_model d [(0%nat, KDoc)] frag = Done d' -> replace_spec [0%nat] frag d = Some d'.
+Proof. exact xe_effect_document. Qed.
+
 Theorem C17_xe_frame : forall (S : list nat) (frag : list fnode) (n : xn), untouched S n -> rs S frag n = Some n.
 Proof. exact rs_frame. Qed.
 
@@ -30,5 +45,7 @@ Theorem C17_xq_output : forall lines : list str, xq_model lines = xq_spec lines.
 Proof. exact xq_output. Qed.
 
 Print Assumptions C17_xe_effect_elements_partial.
+Print Assumptions C17_xe_effect_elements_attributes.
+Print Assumptions C17_xe_effect_document.
 Print Assumptions C17_xe_frame.
 Print Assumptions C17_xq_output.
